@@ -171,6 +171,10 @@ func main() {
 				variants = append(variants, info)
 			}
 			r.Extra["build_variants"] = variants
+			if os.Getenv("DTLSVET_NESTED") == "" {
+				c.activate()
+				c.sensitivity(r, id)
+			}
 		}
 		if code := r.finish(c, *verif, *tier, pstart, known, loadInfo); code > exit {
 			exit = code
